@@ -722,16 +722,6 @@ class X12SegmentDataNode(X12DataNode):
         ret.end_loops = list(self.end_loops)
         return ret
 
-    def select(self, x12_path_str):
-        """
-        Segment nodes have no sub-nodes so return None
-        @param x12_path_str: Relative X12 path - 2400/2430
-        @type x12_path_str: string
-        @return: Iterator on the matching sub-nodes, relative to the instance.
-        @rtype: L{node<x12context.X12DataNode>}
-        """
-        return []
-
     def _select(self, x12path):
         """
         Empty iter for segment nodes
